@@ -38,10 +38,17 @@ pub fn gen_case(prop: &str, rng: &mut Rng) -> Case {
         }
         _ => Flavour::Sync,
     };
-    let n_steps = match rng.below(20) {
-        0..=7 => 2 + rng.below(6),
-        8..=16 => 6 + rng.below(14),
-        _ => 20 + rng.below(21),
+    // one run in 24 is outsized: long, with many handles and subscribers alive at once (anything that
+    // only breaks beyond a small bound: a waker list that outgrows an inline capacity, counters, ...)
+    let outsized = rng.chance(1, 24);
+    let n_steps = if outsized {
+        60 + rng.below(100)
+    } else {
+        match rng.below(20) {
+            0..=7 => 2 + rng.below(6),
+            8..=16 => 6 + rng.below(14),
+            _ => 20 + rng.below(21),
+        }
     };
     let config = Config {
         flavour,
@@ -78,14 +85,20 @@ pub fn gen_case(prop: &str, rng: &mut Rng) -> Case {
     }
     w[0] = w[0].max(4);
     w[8] = w[8].max(3);
+    if outsized {
+        w[8] *= 3;
+        w[5] += 4;
+        w[6] += 4;
+    }
+    let (hi, hj) = if outsized { (12, 20) } else { (5, 6) };
     let eager = *rng.pick(&[0usize, 0, 1, 2, 3]);
     let mut steps = Vec::new();
     if rng.chance(3, 4) {
         steps.push(if rng.chance(1, 3) { Step::SubscribeReset(0) } else { Step::Subscribe(0) });
     }
     while steps.len() < n_steps {
-        let i = rng.below(5);
-        let j = rng.below(6);
+        let i = rng.below(hi);
+        let j = rng.below(hj);
         let mut owner_step = true;
         let s = match rng.weighted(&w) {
             0 => match rng.below(4) {
